@@ -35,7 +35,7 @@ var funcDecl = regexp.MustCompile(`^func (\([^)]*\) )?(New|Make|PM|VM|F)\w*\(`)
 func SaturateAnnotations(w *World, i int) *World {
 	c := w.Clone()
 	for fi, f := range c.Pkgs[i].Files {
-		if f.Name != "decl.go" {
+		if f.Name != "decl.go" && f.Name != "methods.go" {
 			continue
 		}
 		var out []string
@@ -115,7 +115,21 @@ func Sibling(w *World, m *Meta) (*World, map[int]SibLoc) {
 	groups := map[fk][]UseSite{}
 	var order []fk
 	for _, u := range m.Uses {
-		if u.Dep == u.Pkg || u.Text == "" || strings.HasPrefix(u.Shape, "indirect") || strings.HasPrefix(u.Shape, "ctorfn-") || u.File == "gen_skip.go" || strings.HasSuffix(u.File, "_test.go") {
+		if strings.HasPrefix(u.Shape, "indirect") {
+			// a type of package X reached through another package: comparable with X's own
+			// view only if the user imports X directly (by name or blank)
+			user := m.Decls[u.Pkg]
+			direct := user.BlankImport == u.Dep
+			for _, j := range user.Imports {
+				if j == u.Dep {
+					direct = true
+				}
+			}
+			if !direct {
+				continue
+			}
+		}
+		if u.Dep == u.Pkg || u.Text == "" || strings.HasPrefix(u.Shape, "ctorfn-") || u.File == "gen_skip.go" || strings.HasSuffix(u.File, "_test.go") {
 			continue
 		}
 		k := fk{u.Dep, u.Pkg, u.File}
@@ -131,6 +145,27 @@ func Sibling(w *World, m *Meta) (*World, map[int]SibLoc) {
 		s.ln("")
 		for n, u := range groups[k] {
 			s.ln("func sib_%s_%s_%d() {", m.Decls[k.u].Qual, strings.TrimSuffix(k.file, ".go"), n)
+			if strings.HasPrefix(u.Shape, "indirect") {
+				stmt := "Get" + u.Type + "().A = 11"
+				if u.Shape == "indirect-call" {
+					stmt = "_ = Get" + u.Type + "().PM()"
+				}
+				line := s.ln("\t%s", stmt)
+				locs[u.ID] = SibLoc{File: fmt.Sprintf("zz_sib_%s_%s", m.Decls[k.u].Qual, k.file), Line: line}
+				s.ln("}")
+				s.ln("")
+				continue
+			}
+			if strings.HasPrefix(u.Shape, "grouped:") {
+				g := strings.TrimPrefix(u.Shape, "grouped:")
+				s.ln("\tg%s := Get%s()", g, u.Type)
+				line := s.ln("\t%s", strings.Replace(u.Text, "Q.", "", 1))
+				locs[u.ID] = SibLoc{File: fmt.Sprintf("zz_sib_%s_%s", m.Decls[k.u].Qual, k.file), Line: line}
+				s.ln("\t_ = g%s", g)
+				s.ln("}")
+				s.ln("")
+				continue
+			}
 			if strings.HasPrefix(u.Shape, "hidden:") {
 				s.ln("\tu := GetU%s()", dep.Qual)
 				line := s.ln("\t%s", u.Text)
